@@ -117,7 +117,7 @@ def run(rep: Report, only: str = "") -> None:
             tasks.append((nearest_task, (E, M, c, timeout)))
         tasks.append((range_task, (E, M)))
     # dtype / rank / emptiness axis (structural + value obligations on the converted input)
-    dformats = formats if thorough else [(4, 3), (5, 2), (2, 1), (8, 7), (7, 10)]
+    dformats = formats if thorough else [(4, 3), (5, 2), (2, 1), (8, 7), (7, 10), (4, 7), (7, 7), (3, 7), (4, 10), (3, 10), (5, 10), (2, 0)]
     for (E, M) in dformats:
         for dtype in ("float32", "float64", "bfloat16", "float16"):
             if not _dtype_ok(E, M, dtype):
